@@ -140,10 +140,12 @@ def attribute(it, base, name, fr, node):
             return VTensor(d.permute([1, 0]), base.dtype)
         if name == "grad":
             return VOpaque("grad:" + base.dense().canon())
-        if name in ("requires_grad",):
-            return VBool(None, "autograd tracking")
-        if name in ("grad_fn",):
-            return VOpaque("grad_fn?")
+        if name in ("requires_grad", "grad_fn"):
+            d_ = base.dense()
+            who = "+".join(sorted({a.name for t in d_.terms for a in t.atoms}))[:60]
+            if name == "requires_grad":
+                return VBool(None, "autograd tracking: requires_grad of " + who)
+            return VOpaque("grad_fn?" + who)      # compared with None: an unknown of the same family ("autograd tracking")
         if name == "is_cuda":
             return VBool(False)
         return VBound(base, name)
@@ -162,7 +164,10 @@ def attribute(it, base, name, fr, node):
     if isinstance(base, VObj):
         if name in base.attrs:
             return base.attrs[name]
-        if it.model.functions.get(f"{base.cls}.{name}") is not None:
+        g = it.model.functions.get(f"{base.cls}.{name}")
+        if g is not None:
+            if g.is_property:
+                return it.call_function(g, [], {}, recv=base)      # a property of a plain class: its getter runs
             return VBound(base, name)
         raise TypeViolation(f"attribute `{name}` is read on an instance of {base.cls.rsplit('.', 1)[-1]} on a path on which "
                             f"its constructor did not assign it (AttributeError at run time)")
@@ -422,6 +427,10 @@ def call(it, e: ast.Call, fr):
         args = [it.ev(a, fr) for a in e.args]
         kwargs = {k.arg: it.ev(k.value, fr) for k in e.keywords}
         return method(it, f.recv, f.name, args, kwargs, fr, e)
+    if isinstance(f, VClosure):
+        args = [it.ev(a, fr) for a in e.args]
+        kwargs = {k.arg: it.ev(k.value, fr) for k in e.keywords}
+        return it.call_function(f.func, args, kwargs, closure_env=f.env)
     if not isinstance(f, VFunc):
         raise Unmodelled(f"call of {type(f).__name__}")
     args = []
@@ -516,6 +525,7 @@ def method(it, base, name, args, kwargs, fr, node):
             return hook(it, [base] + list(args), kwargs, fr, node)
         return it.call_function(f, args, kwargs, recv=base)
     if isinstance(base, VOpaque):
+        it.trace.append(("call", f"{base.tag}.{name}"))
         if name in ("count",) and base.tag.startswith("index"):
             return VInt(P.atom(f"count({base.tag})"))
         return VOpaque(f"{base.tag}.{name}()")
@@ -633,7 +643,10 @@ def _size_list(it, v):
 def tensor_method(it, base: VTensor, name, args, kwargs, node):
     sp = it.sp
     if name in ("clone", "contiguous", "cpu", "cuda", "detach", "to", "double", "float", "type", "numpy", "resolve_conj"):
-        return VTensor(base.val, base.dtype)
+        v = VTensor(base.val, base.dtype, base.counts)
+        if name in ("clone", "detach", "double", "float", "type", "numpy") or getattr(base, "is_copy", False):
+            v.is_copy = True      # same value, other storage / other autograd node: effects on it do not reach the original
+        return v
     if name == "conj":
         return VTensor(base.val.conj(), base.dtype)
     if name in ("t",):
@@ -667,9 +680,13 @@ def tensor_method(it, base: VTensor, name, args, kwargs, node):
     if name in ("squeeze", "unsqueeze", "sum", "diagonal", "transpose", "swapaxes", "tile", "conj_physical"):
         return function(it, "torch." + name, [base] + list(args), kwargs, None, node)
     if name == "requires_grad_":
+        d_ = base.dense()
+        who = "+".join(sorted({a.name for t in d_.terms for a in t.atoms}))[:60] + (" (a copy)" if getattr(base, "is_copy", False) else "")
+        flag = args[0].v if args and isinstance(args[0], VBool) else (kwargs["requires_grad"].v if isinstance(kwargs.get("requires_grad"), VBool) else True)
+        it.trace.append(("requires_grad_", who, flag))
         return base
     if name == "norm" and not args and not kwargs:
-        return VScalar(Coef.sym("norm(.)"))
+        return VScalar(Coef.sym("norm(" + base.dense().canon() + ")"))
     raise Unmodelled(f"tensor method {name}")
 
 
@@ -746,6 +763,9 @@ def function(it, dotted, args, kwargs, fr, node):
         return it.call_function(model.functions[dotted], args, kwargs)
     top = dotted.split(".")[0]
     last = dotted.rsplit(".", 1)[-1]
+    ext_hook = it.hooks.get(("function", dotted))
+    if ext_hook is not None:
+        return ext_hook(it, args, kwargs, fr, node)      # a scenario observes a call that leaves the package (the compiled backend)
     # ---- builtins
     if top == "builtins":
         return builtin(it, last, args, kwargs, fr, node)
@@ -757,6 +777,8 @@ def function(it, dotted, args, kwargs, fr, node):
             return VBool(isinstance(v, (VInt, VFloat, VStr)))
         if last == "arange" and len(args) == 1 and isinstance(args[0], VInt):
             return VIndexSeq([(args[0].p, 1, 0)])
+        if last == "sqrt" and len(args) == 1 and isinstance(args[0], (VInt, VFloat, VScalar)):
+            return _sqrt_scalar(args[0])
         if last == "prod":
             try:
                 items = it.iter_concrete(args[0])
@@ -774,6 +796,20 @@ def function(it, dotted, args, kwargs, fr, node):
     if top == "sys":
         return VOpaque(dotted)
     raise Unmodelled(f"call of {dotted}")
+
+
+def _sqrt_scalar(v):
+    """square root of a plain number: exact when it is one, a named symbol otherwise"""
+    import math
+    if isinstance(v, VInt) and v.p.const_value() is not None and v.p.const_value() >= 0:
+        c = int(v.p.const_value())
+        r = math.isqrt(c)
+        return VFloat(float(r)) if r * r == c else VScalar(Coef.sym(f"sqrt({c})"))
+    if isinstance(v, VFloat) and v.x >= 0:
+        return VFloat(math.sqrt(v.x))
+    if isinstance(v, VInt):
+        return VScalar(Coef.sym(f"sqrt({v.p!r})"))
+    return VScalar(Coef.sym("sqrt(" + v.coef.show() + ")"))
 
 
 def builtin(it, name, args, kwargs, fr, node):
@@ -825,6 +861,8 @@ def builtin(it, name, args, kwargs, fr, node):
         if not args:
             return VList([]) if name == "list" else VTuple(())
         v = args[0]
+        if isinstance(v, VOpaque):
+            return v      # list(<result of an opaque routine>): still opaque
         if isinstance(v, VIndexSeq):
             out = []
             for n, a, b in v.parts:
@@ -1233,5 +1271,8 @@ def torch_function(it, dotted, last, args, kwargs, node):
                 cval = c
         return VTensor(t.pad(per_axis, cval), args[0].dtype)
     if last == "norm":
+        # the Frobenius norm of a named network: the symbol carries the canonical form of its argument
+        if len(args) == 1 and isinstance(args[0], VTensor) and not kwargs:
+            return VScalar(Coef.sym("norm(" + args[0].dense().canon() + ")"))
         return VScalar(Coef.sym("norm(.)"))
     raise Unmodelled(f"{dotted}")
